@@ -160,10 +160,11 @@ class _ActiveTable(TableEvaluator):
     def __call__(self, variables, context):
         res = super().__call__(variables, context)
         real = context.realizations
+        # (a failure stays a failure: only values that were computed are withheld)
         if context.active_objectives is not None:
-            res.objectives[~context.active_objectives[:, real].T] = 0.0
+            res.objectives[~context.active_objectives[:, real].T & ~np.isnan(res.objectives)] = 0.0
         if context.active_constraints is not None and res.constraints is not None:
-            res.constraints[~context.active_constraints[:, real].T] = 0.0
+            res.constraints[~context.active_constraints[:, real].T & ~np.isnan(res.constraints)] = 0.0
         return res
 
 
